@@ -2,7 +2,7 @@
    finite generated table). *)
 From Coq Require Import List String ZArith NArith Bool.
 Import ListNotations.
-From VF Require Import C16.Model C16.Proofs C16.ProofsF C16.ProofsA C16.ProofsB1 C16.ProofsB2.
+From VF Require Import C16.Model C16.Proofs C16.ProofsF C16.ProofsA C16.ProofsB1 C16.ProofsB2 C16.ProofsB3.
 Local Open Scope string_scope.
 Local Open Scope list_scope.
 
@@ -145,6 +145,35 @@ Theorem forms_roundtrip_case_variant_refuted :
                     | Some (JObj m') => dec_sstruct typedID_fields m' | _ => None end) = Some "b".
 Proof. vm_compute. split; reflexivity. Qed.
 Print Assumptions forms_roundtrip_case_variant_refuted.
+
+(* ---- RE-PARSE EQUALITY (repaired code) ----
+   For every credential document the parser accepts, parsing what MarshalJSON wrote yields the SAME credential
+   object (all 16 components, custom members included).  Guard (vc_guard, on the input): no repeated member name and
+   no case variant of a known name at top level, in subject and issuer objects (id) and in typed ids (id, type) —
+   the known-finding class; numbers are unrestricted (float64 decoding is idempotent), a member named jwt is allowed. *)
+Theorem vc_reparse_equal : forall m v,
+  vc_guard m = true -> parse_vc Fixed (JObj m) = Some v -> parse_vc Fixed (marshal_vc Fixed v) = Some v.
+Proof. exact vc_reparse. Qed.
+Print Assumptions vc_reparse_equal.
+
+(* without the guard it fails: the serialised form puts ID before id or after it, and the later one wins *)
+Theorem vc_reparse_unguarded_refuted :
+  let d := [("@context", JArr [JStr "c"]); ("type", JStr "T"); ("ID", JStr "urn:b"); ("id", JStr "urn:a")] in
+  vc_guard d = false /\
+  option_map v_id (parse_vc Fixed (JObj d)) = Some "urn:a" /\
+  option_map v_id (match option_map (marshal_vc Fixed) (parse_vc Fixed (JObj d)) with Some o => parse_vc Fixed o | None => None end)
+    = Some "urn:b".
+Proof. vm_compute. repeat split. Qed.
+Print Assumptions vc_reparse_unguarded_refuted.
+
+Example vc_reparse_nonvacuous :
+  let d := [("@context", JArr [JStr "c"; JObj [("k", JNum 12345678901234567890%Z)]]); ("type", JArr [JStr "T"; JStr "U"]);
+            ("credentialSubject", JArr [JObj [("id", JStr "s"); ("deg", JNum 3%Z)]; JStr "s2"]);
+            ("issuer", JObj [("id", JStr "i"); ("name", JStr "n")]); ("termsOfUse", JArr [JObj [("id", JStr "t"); ("q", JNull)]]);
+            ("credentialSchema", JObj [("id", JStr "sc"); ("type", JStr "")]); ("proof", JObj [("type", JStr "p")]);
+            ("id", JStr ""); ("jwt", JStr "abc"); ("evidence", JNull); ("custom", JObj [("a", JArr [JNum 1%Z; JNull])])] in
+  vc_guard d = true /\ option_map v_id (parse_vc Fixed (JObj d)) = Some "".
+Proof. vm_compute. split; reflexivity. Qed.
 
 (* ---- key fingerprints (multibase/base58 layer outside: sampled on btcutil) ----
    for every code of the generated multicodec table except G1G2 and every key byte string:
